@@ -444,6 +444,13 @@ mod hvec {
             p as *mut ()
         }
     }
+
+    // Verification hook (inert unless built by Kani with the
+    // `uazu-stakker-verif` feature): harness module kept in /verif
+    #[cfg(all(kani, feature = "uazu-stakker-verif"))]
+    mod uazu_stakker_verif {
+        include!(concat!(env!("UAZU_STAKKER_VERIF"), "/incrate/hvec.rs"));
+    }
 }
 
 // Problem that `CallTrait` solves is calling a `FnOnce` from a &mut
@@ -496,6 +503,13 @@ where
     fn drop(&mut self) {
         panic!("CallItem must never be dropped");
     }
+}
+
+// Verification hook (inert unless built by Kani with the
+// `uazu-stakker-verif` feature): harness module kept in /verif
+#[cfg(all(kani, feature = "uazu-stakker-verif"))]
+mod uazu_stakker_verif {
+    include!(concat!(env!("UAZU_STAKKER_VERIF"), "/incrate/flat.rs"));
 }
 
 #[cfg(test)]
